@@ -318,6 +318,9 @@ func rawFor(r *Rng, t *sx.Node, sc scopeCtx, depth int) *sx.Node {
 		case "pattern":
 			return vS(pick(r, []string{"a+", "^x$", "[0-9]*"}))
 		case "any":
+			if gp.anyTyped && r.Chance(40) {
+				return anyTypedValue(r, 2)
+			}
 			if gp.anyDirty && r.Chance(30) {
 				return anyValue(r, 2, 4+r.Intn(2)) // a list or a map at the top
 			}
@@ -547,10 +550,14 @@ func mutate(r *Rng, v *sx.Node) *sx.Node {
 		return pick(r, wrongValues)
 	}
 	h := v.Head()
+	// a container with a concrete element type (gp.anyTyped: []int8, map[string]int64 ...) cannot hold an arbitrary
+	// value: one of its entries is dropped, or the container as a whole is replaced
+	typed := (h == "sl" || h == "m") && !elemAny(v.List[1])
 	if (h == "sl" || h == "m") && len(v.List) > 3 && r.Chance(70) {
 		i := 3 + r.Intn(len(v.List)-3)
 		out := sx.L(v.List[:i]...)
 		switch {
+		case typed: // drop the entry / the element
 		case h == "m" && r.Chance(25): // drop the entry
 		case h == "m":
 			e := v.List[i]
@@ -564,6 +571,9 @@ func mutate(r *Rng, v *sx.Node) *sx.Node {
 		}
 		out.Append(v.List[i+1:]...)
 		return out
+	}
+	if typed {
+		return pick(r, wrongValues)
 	}
 	if h == "m" && r.Chance(50) {
 		out := sx.L(v.List...)
